@@ -887,7 +887,9 @@ def coq_check(name, model, items, ok_fun, ctx, shard=500, ctype=CASE_TYPE):
         txt += f"Definition cases : list ({ctype}) :=\n  [" + ";\n   ".join(c for _, _, c in chunk) + "].\n"
         txt += f"Eval vm_compute in (bad_idx ({ok_fun}) cases).\n"
         files.append((f"{name}_{si // shard}", txt))
-    res = vlib.coq_eval_many(files, timeout=600, jobs=4 if ctx.quick() else 12)
+    # per-file budget far above what a shard needs (seconds on an idle machine): a loaded machine must not turn into a
+    # broken correspondence
+    res = vlib.coq_eval_many(files, timeout=2400, jobs=4 if ctx.quick() else 12)
     bad = []
     for n, (ok, out) in enumerate(res):
         if not ok:
@@ -1870,6 +1872,10 @@ def run(ctx: vlib.Ctx):
         "input keys are hashable scalars (str / None / int); values are ints or None and are opaque to the model (None "
         "crosses to Coq as the reserved code -7); outcomes are compared at the level of what is observable: attribute values",
     ]
+    # In a fresh copy on a loaded machine the cone of the property file may not be built yet (setup's make is cut off by
+    # its own timeout): build it first with a generous budget, so that no obligation below depends on the 900 s of
+    # vlib.coq_make being enough for a build from scratch.  Failures are reported by ctx.theorems / coq_check below.
+    vlib.coq_make(["props/C09_keys.vo"], timeout=3300, jobs=6)
     br = ctx.theorems("props/C09_keys.vo", THEOREMS, kernels=["K4", "K5", "K43"])
     # every registered name must be a theorem of the props file with its own Print Assumptions, all closed
     import os
